@@ -37,7 +37,7 @@ SSM_T = SSM_Q + [(1, 2, 8), (2, 1, 12), (3, 2, 12), (3, 3, 8), (2, 2, 10)]
 
 def cells(tier, seed):
     out = []
-    reps = 2 if tier == "quick" else 6
+    reps = 2 if tier == "quick" else 8
     for (Dw, Dy, N) in (STATIC_Q if tier == "quick" else STATIC_T):
         for ok in ("full", "diag", "nn") + (("identity", "identity_diag") if Dw == Dy else ()):
             out.append({"part": "static", "Dw": Dw, "Dy": Dy, "N": N, "ok": ok, "reps": reps,
